@@ -14,9 +14,9 @@ ACTIONS = {'Issue': ('c', 'k'), 'Return': ('c', 'sh'), 'ErrorReply': ('c', 'sh')
            'Expire': ('c',), 'Unsolicited': ('kind',), 'Lose': (), 'Quiet': ()}
 OBS = ['status', 'cfg', 'table', 'timer', 'fired', 'conn']
 NOCFG = {'dl': False, 'ret': '-', 'nr': False}
-SHAPES = ['none', 'one', 'struct', 'many', 'oneint']
+SHAPES = ['none', 'one', 'struct', 'many', 'oneint', 'arrst']
 ESHAPES = ['nobody', 'msg', 'nonstr', 'msg2']
-RETS = ['nocheck', '', 's', 'ss', '(ss)', 'i']
+RETS = ['nocheck', '', 's', 'ss', '(ss)', 'i', 'a(ss)']
 
 
 def reply_payload(c, sh):
@@ -31,6 +31,8 @@ def reply_payload(c, sh):
         return '(ss)', [['st:%d' % c, 'x']]
     if sh == 'many':
         return 'ss', ['many:%d' % c, 'y']
+    if sh == 'arrst':
+        return 'a(ss)', [[['as:%d' % c, 'x']]]
     raise ValueError(sh)
 
 
@@ -42,6 +44,9 @@ def decode_value(v, c_default):
         return 'single', 'one', int(v[4:])
     if isinstance(v, int) and not isinstance(v, bool) and 1000 <= v < 2000:
         return 'single', 'oneint', v - 1000
+    if isinstance(v, list) and len(v) == 1 and isinstance(v[0], list) and len(v[0]) == 2 \
+            and isinstance(v[0][0], str) and v[0][0].startswith('as:') and v[0][1] == 'x':
+        return 'single', 'arrst', int(v[0][0][3:])
     if isinstance(v, list) and len(v) == 1 and isinstance(v[0], list) and len(v[0]) == 2 \
             and isinstance(v[0][0], str) and v[0][0].startswith('st:') and v[0][1] == 'x':
         return 'list', 'struct', int(v[0][0][3:])
